@@ -80,3 +80,61 @@ pub fn c08_token_not_removable() {
     let t = peek(&n.dbs, "d", "$$token").unwrap();
     vsym::check("token.not-removable", t.value == "tok" && t.state != ValueStatus::Deleted);
 }
+
+fn secure_cluster_dump(cl: &crate::harness::cluster::Cluster) -> Vec<String> {
+    let mut out: Vec<String> = Vec::new();
+    let mut i = 0;
+    while i < cl.nodes.len() {
+        let m = cl.nodes[i].dbs.map.read().unwrap(); let db = m.get(&String::from("d")).unwrap(); let dm = db.map.read().unwrap();
+        let mut ks: Vec<String> = dm.keys().map(|x| x.clone()).collect(); ks.sort();
+        for x in ks.iter() { if x.starts_with("$$") || x.starts_with("$conflicts_$$") { let val = dm.get(x).unwrap(); out.push([&cl.nodes[i].name, "/", x.as_str(), "=", &val.value, "@", &val.version.to_string(), "s", &(val.state as usize).to_string()].concat()); } }
+        i += 1;
+    }
+    out
+}
+/// the same guarantee through a secondary: a non-administrator session connected to a secondary sends mutating commands naming
+/// $$ keys; whatever the secondary forwards travels over the (administrator-authenticated) cluster link, so the check has to be
+/// made before forwarding. After quiescence the $$ keys of every node are unchanged and the command was refused.
+pub fn c08_via_secondary() {
+    use crate::harness::cluster::*;
+    let mut cl = mk_cluster(1);
+    let (mut admin, mut arx) = admin_client(&cl.nodes[0].dbs);
+    process_request("create-db d tok", &cl.nodes[0].dbs, &mut admin);
+    vsym::assume(cl.settle(80, false).is_some());
+    process_request("use-db d tok", &cl.nodes[0].dbs, &mut admin);
+    process_request("set $$s 7", &cl.nodes[0].dbs, &mut admin);
+    process_request("create-user o ot", &cl.nodes[0].dbs, &mut admin);
+    process_request("set-permissions o r a*", &cl.nodes[0].dbs, &mut admin);
+    process_request("set pub 1", &cl.nodes[0].dbs, &mut admin);
+    vsym::assume(cl.settle(200, false).is_some());
+    let at = vsym::choice("node", 2); vsym::tag_i("node", at as i64);
+    let sess = vsym::choice("session", 2); vsym::tag_i("session", sess as i64);
+    let (mut c, mut rx) = new_client();
+    if sess == 0 { vsym::assume(is_ok(&process_request("use-db d tok", &cl.nodes[at].dbs, &mut c))); }
+    else {
+        process_request("create-user me mt", &cl.nodes[0].dbs, &mut admin); process_request("set-permissions me rwix *", &cl.nodes[0].dbs, &mut admin);
+        vsym::assume(cl.settle(200, false).is_some());
+        vsym::assume(is_ok(&process_request("use-db d me mt", &cl.nodes[at].dbs, &mut c)));
+    }
+    vsym::assume(cl.settle(200, false).is_some());
+    drain(&mut rx);
+    let keys = ["$$s", "$$token", "$$user_o", "$$permission_$o"];
+    let k = keys[vsym::choice("key", keys.len())]; vsym::tag(k);
+    let v = vsym::any_token("value", 3); vsym::assume(v.len() >= 1);
+    let ver = vsym::any_i32("version"); vsym::assume(ver >= -1 && ver <= 3);
+    let op = vsym::choice("op", 5); vsym::tag_i("op", op as i64);
+    let line = match op {
+        0 => ["set ", k, " ", &v].concat(),
+        1 => ["set-safe ", k, " ", &ver.to_string(), " ", &v].concat(),
+        2 => ["remove ", k].concat(),
+        3 => ["increment ", k, " 2"].concat(),
+        _ => ["resolve 77 d ", k, " ", &ver.to_string(), " ", &v].concat(),
+    };
+    let before = secure_cluster_dump(&cl);
+    let r = process_request(&line, &cl.nodes[at].dbs, &mut c);
+    let settled = cl.settle(200, false);
+    vsym::check("secure-cluster.quiesces", settled.is_some());
+    vsym::check("secure-cluster.refused", is_error(&r));
+    vsym::check("secure-cluster.keys-unchanged-on-every-node", same_lines(&before, &secure_cluster_dump(&cl)));
+    vsym::cover("secure-cluster.on-secondary", at == 1);
+}
